@@ -176,6 +176,21 @@ pub fn wl_c13(seed: u64, tier: &str) -> Vec<Vec<Value>> {
         }
         sessions.push(ops2);
     }
+    // tags and messages with special content (trailing / leading / embedded zero bytes, ...)
+    {
+        let pats = content_patterns(&mut r);
+        for x in XS13.iter() {
+            let is_xmd = x.starts_with("xmd");
+            let mut ops2 = vec![];
+            for (k, pat) in pats.iter().enumerate() {
+                let other = r.bytes(7);
+                let f = ["Fq", "Fr", "Fq2"][k % 3];
+                ops2.push(json!({"op": "h2f", "f": f, "x": x, "msg": bytes_to_j(&other), "dst": bytes_to_j(pat), "count": 1 + (k % 2), "cls": "tag-content"}));
+                ops2.push(json!({"op": if is_xmd {"xmd"} else {"xof"}, "x": x, "msg": bytes_to_j(pat), "dst": bytes_to_j(&other), "len": 48, "cls": "message-content"}));
+            }
+            sessions.push(ops2);
+        }
+    }
     // a stand-in hash with structured digests (zero words, all ones, ...): the reduction stage sees blocks
     // of every shape through the real pipeline
     {
@@ -242,6 +257,35 @@ pub fn wl_c13(seed: u64, tier: &str) -> Vec<Vec<Value>> {
     sessions.push(ops);
     sessions.retain(|s| !s.is_empty());
     sessions
+}
+
+
+/// tags / messages whose *content* (not length) is special: trailing, leading, embedded and all-zero
+/// bytes, high bits, white space - a tag is an opaque byte string and every byte of it counts
+fn content_patterns(r: &mut Rng) -> Vec<Vec<u8>> {
+    let a = b"QUUX-V01-CS02".to_vec();
+    let mut v: Vec<Vec<u8>> = vec![a.clone()];
+    for tail in [&[0u8][..], &[0, 0], &[0x80], &[0xff], &[b' '], &[b'\n'], &[0, 1]].iter() {
+        let mut x = a.clone();
+        x.extend_from_slice(tail);
+        v.push(x);
+    }
+    let mut lead = vec![0u8];
+    lead.extend_from_slice(&a);
+    v.push(lead);
+    let mut mid = a.clone();
+    mid[5] = 0;
+    v.push(mid);
+    v.push(vec![0u8]);
+    v.push(vec![0u8; 8]);
+    v.push(vec![0xffu8; 8]);
+    let mut rz = r.bytes(12);
+    rz[11] = 0;
+    v.push(rz);
+    let mut rz2 = r.bytes(12);
+    rz2[0] = 0;
+    v.push(rz2);
+    v
 }
 
 pub fn wl_c06(seed: u64, tier: &str) -> Vec<Vec<Value>> {
@@ -333,6 +377,27 @@ pub fn wl_c06(seed: u64, tier: &str) -> Vec<Vec<Value>> {
                     sessions.push(ops2);
                 }
             }
+        }
+        // tags and messages with special content (trailing / leading / embedded zero bytes, ...)
+        {
+            let pats = content_patterns(&mut r);
+            let mut ops2 = vec![];
+            for (k, pat) in pats.iter().enumerate() {
+                if *g == "G2" && !thorough && k % 2 == 1 && k > 3 {
+                    continue;
+                }
+                let x = XS[k % XS.len()];
+                let mode = if k % 2 == 0 { "ro" } else { "nu" };
+                let other = r.bytes(9);
+                ops2.push(json!({"op": "h2c", "g": g, "x": x, "mode": mode, "msg": bytes_to_j(&other), "dst": bytes_to_j(pat), "cls": "tag-content"}));
+                if *g == "G1" || thorough {
+                    ops2.push(json!({"op": "h2c", "g": g, "x": XS[(k + 1) % XS.len()], "mode": mode, "msg": bytes_to_j(pat), "dst": bytes_to_j(&other), "cls": "message-content"}));
+                }
+                if ops2.len() >= (if *g == "G1" { 6 } else { 2 }) {
+                    sessions.push(std::mem::replace(&mut ops2, vec![]));
+                }
+            }
+            sessions.push(ops2);
         }
         // the same (msg, dst) through every suite back to back (history independence)
         let msg = r.bytes(33);
